@@ -246,6 +246,21 @@ breaking('E6-seed-C08-r4m3', {'C08': 'E6'}, patch='/verif/selftest/patches/seed_
 breaking('MC3-seed-C10-r4m1', {'C10': 'MC3', 'C09': 'O5'}, patch='/verif/selftest/patches/seed_C10_r4m1.diff')
 breaking('S2-seed-C10-r4m2', {'C10': 'S2', 'C11': 'S2'}, patch='/verif/selftest/patches/seed_C10_r4m2.diff')
 breaking('S5-seed-C10-r4m3', {'C10': 'S5', 'C09': 'S5'}, patch='/verif/selftest/patches/seed_C10_r4m3.diff')
+breaking('AX1-seed-C01-r4m1', {'C01': 'AX1'}, patch='/verif/selftest/patches/seed_C01_r4m1.diff')
+breaking('SM1-seed-C01-r4m2', {'C01': 'SM1'}, patch='/verif/selftest/patches/seed_C01_r4m2.diff')
+breaking('SINC1-seed-C01-r4m3', {'C01': 'SINC1'}, patch='/verif/selftest/patches/seed_C01_r4m3.diff')
+breaking('D6-seed-C03-r4m1', {'C03': 'D6'}, patch='/verif/selftest/patches/seed_C03_r4m1.diff')
+breaking('NR1-seed-C03-r4m2', {'C03': 'NR1'}, patch='/verif/selftest/patches/seed_C03_r4m2.diff')
+breaking('PG1-seed-C03-r4m3', {'C03': 'PG1'}, patch='/verif/selftest/patches/seed_C03_r4m3.diff')
+breaking('A10-seed-C04-r4m1', {'C04': 'A10'}, patch='/verif/selftest/patches/seed_C04_r4m1.diff')
+breaking('A11-seed-C04-r4m2', {'C04': 'A11'}, patch='/verif/selftest/patches/seed_C04_r4m2.diff')
+breaking('AL3-seed-C04-r4m3', {'C04': 'AL3'}, patch='/verif/selftest/patches/seed_C04_r4m3.diff')
+breaking('H1-seed-C07-r4m1', {'C07': 'H1'}, patch='/verif/selftest/patches/seed_C07_r4m1.diff')
+breaking('VM1-seed-C07-r4m2', {'C07': 'VM1'}, patch='/verif/selftest/patches/seed_C07_r4m2.diff')
+breaking('H9-seed-C07-r4m3', {'C07': 'H9'}, patch='/verif/selftest/patches/seed_C07_r4m3.diff')
+breaking('MC3-seed-C09-r4m1', {'C09': 'MC3'}, patch='/verif/selftest/patches/seed_C09_r4m1.diff')
+breaking('DT5-seed-C09-r4m2', {'C09': 'DT5'}, patch='/verif/selftest/patches/seed_C09_r4m2.diff')
+breaking('SP1-seed-C09-r4m3', {'C09': 'SP1'}, patch='/verif/selftest/patches/seed_C09_r4m3.diff')
 breaking('refix-get_gme_2qubit', {'C13': 'F2', 'C05': 'F2'}, patch_reverse='fix_78cd862.diff')
 
 # ---- behaviour-preserving edits for the second half of the round-3 rules
